@@ -113,7 +113,7 @@ def timer_survives(c):
     """A failing / unintelligible poll leaves polling running (RepeatedTimer + LongPoll.start with a tiny interval)."""
     sysm = D.SyncSystem()
     sysm.cfg._ConfigService__custom['POLL_TIMER'] = 0.01
-    kinds = ['error', 'malformed', 'error', 'update', 'no_change', 'malformed', 'no_change']
+    kinds = ['error', 'malformed', 'error', 'update', 'no_change', 'malformed', 'unknown_type', 'no_change']
     sysm.svc = 1
     seen = []
 
